@@ -117,6 +117,36 @@ def _params(call):
     return tuple(vals.get(k, d[k]) for k in ('key_len', 'N', 'r', 'p'))
 
 
+def _check_nfc(ctx, q, fn, pw_term, param):
+    """the scrypt password must be the NFC form of the caller's passphrase (BIP38: 'passphrase ... NFC normalized')"""
+    norms = [x for x in subterms(('w', pw_term)) if isinstance(x, tuple) and x[0] == 'mcall' and x[2] == 'normalize' and x[1] == ('global', 'unicodedata')]
+    other = [x for x in subterms(('w', pw_term)) if isinstance(x, tuple) and x[0] == 'call' and x[1] == 'normalize_string']
+    ctx.saw('%s: scrypt password %s' % (q, show(pw_term)[:110]))
+    if other or any(n[3][0] != 'NFC' for n in norms):
+        form = 'NFKD (normalize_string)' if other else norms[0][3][0]
+        ctx.violate(q, 'passphrase is normalised to %s before key stretching, BIP38 prescribes NFC' % form, fn,
+                    'keys produced with a non-ASCII passphrase differ from the specification and cannot be decrypted by the same passphrase elsewhere')
+        return
+    raw = _raw_outside(pw_term, param)
+    if not norms or raw:
+        ctx.violate(q, 'passphrase reaches scrypt without Unicode NFC normalisation (%s)' % show(pw_term)[:80], fn,
+                    'BIP38 test vector with a non-NFC passphrase is not reproduced; composed/decomposed spellings of one passphrase give different keys')
+
+
+def _raw_outside(t, leaf):
+    """does leaf occur in t outside unicodedata.normalize(...) — ignoring the bytes-typed branch of isinstance(x, str) selections"""
+    if isinstance(t, tuple) and t and t[0] == 'mcall' and t[2] == 'normalize' and t[1] == ('global', 'unicodedata'):
+        return False
+    if t == leaf:
+        return True
+    if isinstance(t, tuple) and t and t[0] == 'cond' and isinstance(t[1], tuple) and t[1][0] == 'isinstance':
+        # (isinstance(pw, str) ? f(pw) : pw): the else branch is the caller passing bytes, which cannot be normalised
+        return _raw_outside(t[2], leaf)
+    if isinstance(t, tuple):
+        return any(_raw_outside(x, leaf) for x in t)
+    return False
+
+
 def _run(ctx, q, args):
     fn = ctx.repo.func(q)
     it = Interp(ctx.repo, 'keys', hooks=LAYOUT_HOOKS)
@@ -130,6 +160,8 @@ def _run(ctx, q, args):
     mut.replace_expr('keys', 'bip38_decrypt', 'd[16:32]', 'd[0:16]', 'bip38_decrypt: second half read from first half offset'),
     mut.replace_expr('keys', 'bip38_decrypt', 'decryptedhalf1 + decryptedhalf2', 'decryptedhalf2 + decryptedhalf1', 'bip38_decrypt: halves swapped'),
     mut.const('keys', 'bip38_intermediate_password', 16384, 1024, 'intermediate password: scrypt N', nth=1),
+    mut.const('keys', 'bip38_intermediate_password', 'NFC', 'NFKD', 'intermediate password: NFKD instead of NFC', nth=0),
+    mut.replace_expr('keys', 'bip38_encrypt', "unicodedata.normalize('NFC', password).encode('utf-8')", "password.encode('utf-8')", 'bip38_encrypt: passphrase not NFC-normalised again'),
 ])
 def params(ctx):
     """bip38_encrypt and the non-EC branch of bip38_decrypt use scrypt (N=16384, r=8, p=8, 64 bytes), AES key = derived
@@ -159,6 +191,7 @@ def params(ctx):
         ctx.undecided('bip38_encrypt: %d distinct scrypt calls' % len(sc))
     ctx.require(_params(sc[0]) == (64, 16384, 8, 8), q, 'scrypt parameters (len,N,r,p)=%s, BIP38 prescribes (64,16384,8,8)' % (_params(sc[0]),), fn)
     ctx.require(sc[0][2][1] == ah, q, 'scrypt salt is %s, expected the address hash that is embedded' % show(sc[0][2][1])[:80], fn)
+    _check_nfc(ctx, q, fn, sc[0][2][0], pw)
     dh1, dh2 = ('slice', sc[0], None, 32, None), ('slice', sc[0], 32, 64, None)
     def enc_ok(e, plo, phi, klo, khi):
         if not (isinstance(e, tuple) and e[0] == 'mcall' and e[2] == 'encrypt' and isinstance(e[1], tuple) and e[1][0] == 'mcall' and e[1][2] == 'new'):
@@ -190,6 +223,7 @@ def params(ctx):
     ctx.saw('bip38_decrypt non-EC: scrypt %s, address hash %s' % (_params(sc_r[0]), show(ahash)))
     ctx.require(_params(sc_r[0]) == _params(sc[0]), q, 'non-EC decrypt uses scrypt parameters %s, bip38_encrypt uses %s' % (_params(sc_r[0]), _params(sc[0])), fn,
                 'keys written by the library cannot be decrypted')
+    _check_nfc(ctx, q, fn, sc_r[0][2][0], pw)
     ctx.require(ahash == ('slice', D, 3, 7, None), q, 'address hash read from %s, the writer stores it at [3:7]' % show(ahash), fn)
     ctx.require(sc_r[0][2][1] == ahash, q, 'scrypt salt is %s, expected the embedded address hash' % show(sc_r[0][2][1])[:80], fn)
     aes = lambda blk: ('mcall', ('mcall', ('global', 'AES'), 'new', (('slice', sc_r[0], 32, 64, None), ('attr', ('global', 'AES'), 'MODE_ECB')), ()), 'decrypt', (blk,), ())
@@ -203,6 +237,9 @@ def params(ctx):
     r_ec = normalize(plus_to_cat(term(ec[0].value)))
     p_ec = sorted(set(_params(c) for c in _scrypts(r_ec)))
     ctx.saw('bip38_decrypt EC scrypt parameter sets %s' % p_ec)
+    for c in _scrypts(r_ec):
+        if _params(c) == (32, 16384, 8, 8):
+            _check_nfc(ctx, q, fn, c[2][0], pw)
     ctx.require(p_ec == [(32, 16384, 8, 8), (64, 1024, 1, 1)], q, 'EC decrypt scrypt parameters %s, BIP38: pass factor (32,16384,8,8), seed (64,1024,1,1)' % p_ec, fn)
     q = 'keys:bip38_intermediate_password'
     for lot, seq in ((None, None), (S(('var', 'lot'), 'int'), S(('var', 'sequence'), 'int'))):
@@ -211,6 +248,9 @@ def params(ctx):
         ps = sorted(set(_params(c) for e in rets for c in _scrypts(term(e.value))))
         ctx.saw('bip38_intermediate_password(lot=%s) scrypt %s' % ('given' if lot is not None else None, ps))
         ctx.require(ps == [(32, 16384, 8, 8)], q, 'pass factor scrypt parameters %s, decrypt uses (32,16384,8,8)' % ps, fn)
+        for e in rets:
+            for c in _scrypts(term(e.value)):
+                _check_nfc(ctx, q, fn, c[2][0], ('var', 'passphrase'))
     q = 'keys:bip38_create_new_encrypted_wif'
     fn, it, exits = _run(ctx, q, {'intermediate_passphrase': S(('var', 'ip'), 'str'), 'seed': S(('var', 'seed'), 'bytes'), 'compressed': S(('var', 'compressed'), 'bool')})
     rets = [e for e in exits if e.kind == 'return']
